@@ -434,6 +434,18 @@ class BuiltinMixin:
     def b_operator_not_(self, fr, f, args, kw, node):
         return SBool(z3.Not(self.truthy(args[0])))
 
+    def b_itertools_islice(self, fr, f, args, kw, node):
+        if len(args) != 2:
+            raise Unsupported('islice with start/step')
+        seq = self.as_seq(args[0])
+        n = self.as_int(args[1])
+        if not self.specmode and self.branch(n < 0):
+            raise PyRaise('ValueError', getattr(node, 'lineno', None), 'Stop argument for islice() must be None or an integer: 0 <= x <= sys.maxsize')
+        # for 0 <= n the first n elements are exactly the slice [:n]: one term for both, so that code written with
+        # islice and a specification written with a slice denote the same sequence
+        r = self.slice_seq(seq, NONE, SInt(n))
+        return SSeq(r.t, 'tuple', seq.elem)
+
     def b_copy_copy(self, fr, f, args, kw, node):
         v = args[0]
         if isinstance(v, SObj):
